@@ -7,7 +7,7 @@
    Part 3: the scanner's and the checker's loops over item sequences.
    Part 4: the printer's loop emits such a sequence; expansion. *)
 From Coq Require Import List ZArith Bool Lia.
-From RtoscV Require Import Pretty.Tok Pretty.FloatFmt Pretty.PrintModel Pretty.ScanModel Pretty.FloatProofs
+From RtoscV Require Import Pretty.Tok Pretty.FloatFmt Pretty.PrintModel Pretty.ScanModel Pretty.FloatProofs Pretty.SymBlobProofs
   Pretty.PrettyProofs Pretty.RangeProofs Pretty.RunProofs.
 Import ListNotations.
 Local Open Scope Z_scope.
@@ -910,8 +910,16 @@ Definition goodfl (zf zd : Z) (v : av) : Prop :=
 
 (* the values of the list-level theorems; floats and doubles only with the
    lossless option (the hexadecimal value in parentheses) *)
+(* symbols printed bare (identifier-shaped, no reserved word) and blobs *)
+Definition goodx (v : av) : Prop :=
+  match v with
+  | VSym s => sym_plain s = true
+  | VB d => Forall byte_ok d
+  | _ => False
+  end.
+
 Definition goodc (o : popts) (zf zd : Z) (v : av) : Prop :=
-  goodc0 v \/ (lossless o = true /\ goodfl zf zd v).
+  goodc0 v \/ goodx v \/ (lossless o = true /\ goodfl zf zd v).
 
 (* the same with the condition on the zeroes at list level (nozmix), as the
    classifier of the check states it *)
@@ -921,7 +929,7 @@ Definition goodfin (v : av) : Prop :=
   | VD b => 0 <= b < 2 ^ 64 /\ f64_finite b = true
   | _ => False
   end.
-Definition goodv (o : popts) (v : av) : Prop := goodc0 v \/ (lossless o = true /\ goodfin v).
+Definition goodv (o : popts) (v : av) : Prop := goodc0 v \/ goodx v \/ (lossless o = true /\ goodfin v).
 Definition nozmix (vs : list av) : Prop :=
   (~ In (VFl 0) vs \/ ~ In (VFl (2 ^ 31)) vs) /\ (~ In (VD 0) vs \/ ~ In (VD (2 ^ 63)) vs).
 
@@ -939,15 +947,16 @@ Qed.
 
 Lemma goodc_facts o zf zd v : goodc o zf zd v -> scalar v /\ inrv zf zd v /\ exact v.
 Proof.
-  intros [H|[_ H]].
+  intros [H|[H|[_ H]]].
   - destruct v; cbn in *; unfold small_k, good_k in *; try tauto; lia.
+  - destruct v; cbn [goodx] in H; try contradiction; cbn; tauto.
   - destruct v; cbn [goodfl] in H; try contradiction; cbn [scalar inrv exact]; unfold flgood;
       destruct H as (Hb & Hf & Hz).
     + split; [exact I|]. split; [|exact I]. split; [exact Hb|]. split; [now apply finite_notnan32|exact Hz].
     + split; [exact I|]. split; [|exact I]. split; [exact Hb|]. split; [now apply finite_notnan64|exact Hz].
 Qed.
 Lemma goodc_mk o zf zd k z : goodc o zf zd (mk k z) -> small_k k z.
-Proof. intros [H|[_ H]]; destruct k; cbn in H; tauto. Qed.
+Proof. intros [H|[H|[_ H]]]; destruct k; cbn in H; tauto. Qed.
 
 Lemma pav_mk o k z cols f :
   print_arg_val_f (S f) o [mk k z] cols None = Some (tok_k k z, len (tok_k k z), cols + len (tok_k k z), false).
@@ -1105,8 +1114,32 @@ Lemma goodc_tok o zf zd v cols t w c :
   goodc o zf zd v -> print_scalar o v cols = Some (t, w, c) ->
   tokof dec2f dec2d v t /\ sdots t /\ w = len t.
 Proof.
-  intros [Hg|[Hl Hg]] Hp.
+  intros [Hg|[Hg|[Hl Hg]]] Hp.
   - destruct (goodc0_tok o v cols t w c Hg Hp) as (A & B & C). split; [exact A|]. split; [now apply nodot_sdots|exact C].
+  - destruct v; cbn [goodx] in Hg; try contradiction; cbn [print_scalar] in Hp.
+    + (* a bare symbol *)
+      destruct (sym_plain_facts s Hg) as (c0 & r0 & Es & Hc0 & Hs & _).
+      unfold print_string in Hp. rewrite Hg in Hp. cbn [andb] in Hp.
+      rewrite (print_chars_plain (linelength o) s cols Hs) in Hp. inversion Hp; subst t w c. clear Hp.
+      split; [|split; [|reflexivity]].
+      * split; [apply tok_core_reads; now apply tok_plainsym|]. split; [|exact I].
+        exists c0, r0. split; [exact Es|].
+        unfold isidstart, isalpha, isupper, islower, in_range in Hc0. unfold first_ok, isspace, in_range. lia.
+      * apply nodot_sdots. eapply Forall_impl; [|exact Hs]. intros a Ha. apply (idch_facts a Ha).
+    + (* a blob *)
+      destruct (print_blob o d cols) as [[t0 w0] c0] eqn:Eb. inversion Hp; subst t0 w0 c0. clear Hp.
+      destruct (print_blob_text o d cols t w c Eb) as (T & HT & -> & Hw).
+      split; [|split; [|exact Hw]].
+      * split; [apply tok_core_reads; now apply tok_blob|]. split; [|exact I].
+        eexists _, _. split; [reflexivity|]. unfold first_ok, isspace, in_range. lia.
+      * apply nodot_sdots. unfold blob_text. apply Forall_app. split; [repeat constructor; lia|].
+        apply Forall_app. split; [repeat constructor; lia|].
+        apply Forall_app. split; [eapply Forall_impl; [|apply print_d_chars]; cbn; lia|].
+        apply Forall_app. split; [|repeat constructor; lia].
+        clear -HT. induction HT as [|b d sep T Hsep HT IH]; [constructor|].
+        apply Forall_app. split; [destruct Hsep as [->| ->]; repeat constructor; lia|].
+        apply Forall_app. split; [repeat constructor; lia|].
+        apply Forall_app. split; [apply hex2_nodot|exact IH].
   - destruct v; cbn [goodfl] in Hg; try contradiction; destruct Hg as (Hb & Hf & _);
       cbn [print_scalar] in Hp; rewrite Hl in Hp; inversion Hp; subst; clear Hp.
     + split; [|split; [apply (flt_text_sdots (prec o) (f32_to_f64 bits))|reflexivity]].
@@ -1551,7 +1584,7 @@ Proof.
   assert (Ed : exists zd, (zd = 0 \/ zd = 2 ^ 63) /\ ~ In (VD zd) vs) by (destruct Hd; eauto).
   destruct Ef as (zf & Hzf & Hnf). destruct Ed as (zd & Hzd & Hnd).
   exists zf, zd. split; [split; assumption|].
-  apply Forall_forall. intros v Hin. pose proof (proj1 (Forall_forall _ _) Hg v Hin) as [H0|[Hl Hv]]; [now left|].
+  apply Forall_forall. intros v Hin. pose proof (proj1 (Forall_forall _ _) Hg v Hin) as [H0|[H0|[Hl Hv]]]; [now left|right; now left|right].
   right. split; [exact Hl|]. destruct v; cbn [goodfin] in Hv; try contradiction; cbn [goodfl]; destruct Hv as [Hb Hfin].
   - split; [exact Hb|]. split; [exact Hfin|]. intros ->. contradiction.
   - split; [exact Hb|]. split; [exact Hfin|]. intros ->. contradiction.
